@@ -83,10 +83,31 @@ def all_dags_rules(rep, prog):
             ok = comp[2] == e and conds == want
             why = "kept under %s" % sorted(fmt(c)[:60] for c in conds)
             cand_list = it
+    if not filt:
+        # the same filter written as a loop:  for A in dags: if is_dag(A) and is_consistent_extension(A, pdag): members.append(A)
+        for lid2, li2 in S.loopinfo.items():
+            if li2["func"] != q or li2["iter"] is None or li2["iter"][0] != "after":
+                continue
+            e = ("elem", li2["iter"])
+            apps2 = [c for c in S.select("call", qname=q) if c.callkind == "method" and c.target == ".append" and c.loops and c.loops[-1] == lid2 and c.args == [e]]
+            if len(apps2) != 1 or apps2[0].recv[0] != "mu":
+                continue
+            have = conj(apps2[0].path)
+            want_ = {("atom", call("is_dag", A=e), True), ("atom", ("call", U + "is_consistent_extension", (e, pd), (("G", e), ("P", pd))), True)}
+            got_ = {x for x in have if x[0] == "atom" and isinstance(x[1], tuple) and x[1][0] == "call"}
+            res_name = apps2[0].recv[2]
+            users = [r for r in rets if any(x == ("after", lid2, res_name) for x in walk(r.value))]
+            if len(users) == 1:
+                ok = got_ == want_
+                why = "kept under %s" % sorted(fmt(c[1])[:60] for c in got_)
+                cand_list = li2["iter"]
+                filt = users
     rep.check("FILTER.both", ok, fwhere(f, filt[0].node if filt else None), "a candidate is returned only if is_dag(A) and is_consistent_extension(A, pdag)",
               "the result filter is not `is_dag(A) and is_consistent_extension(A, pdag)`: " + why)
     # candidates: copies of pdag with cleared entries at undirected-edge positions
     apps = [c for c in S.select("call", qname=q) if c.callkind == "method" and c.target == ".append"]
+    if cand_list is not None and cand_list[0] == "after":
+        apps = [c for c in apps if c.recv == ("mu", cand_list[1], cand_list[2])]
     ok, why = False, "no candidate construction"
     und = call("only_undirected", P=pd)
     if len(apps) == 1 and cand_list is not None and cand_list[0] == "after":
@@ -111,6 +132,10 @@ def orientation_rules(rep, prog):
     S = Sym(prog)
     run_function(S, f)
     loops = [(k, v) for k, v in S.loopinfo.items() if v["func"] == q and v["iter"] is not None]
+    if len(loops) > 1:
+        # further loops (e.g. an explicit filter loop over the candidates) are not the enumeration
+        enum = [(k, v) for k, v in loops if v["iter"][0] == "call" and v["iter"][1] == U + "cartesian"]
+        loops = enum if len(enum) == 1 else loops
     if len(loops) != 1:
         rep.unk("ORIENTATIONS.product", fwhere(f), "all_dags no longer enumerates orientations in one loop; the rule does not read this idiom")
         return
